@@ -449,6 +449,10 @@ fn gauss_lowrank_case(c: &J, tol: f64, worst: &mut f64) -> Result<usize, String>
         if r.is_nan() || r > *worst {
             *worst = r;
         }
+        // the draws are mu + sigma z in double precision: their deviations from mu carry a relative error of about
+        // eps * |mu| / sigma, which no estimator can undo
+        let cond = (0..d).map(|i| mu[i].abs() / sig[i]).fold(0.0f64, f64::max);
+        let tol = tol + 4.0 * f64::EPSILON * cond;
         if !(r <= tol) {
             return Err(format!("gauss_lowrank: |grad + position| / |position| = {r} in the whitened space (tolerance {tol}) {c}"));
         }
